@@ -57,3 +57,42 @@ pub fn refusal<S: Source>(s: &mut S, op: Ew, da: &[usize], db: &[usize]) {
     forget((a, b, r));
     chk!(false, "[C04:refusal-missing] incompatible shapes were accepted");
 }
+
+/// The broadcast shape rule with *symbolic* dimensions (any extent in 1..=65536, ranks fixed
+/// per obligation), through the hook `verif_element_wise_dimensions`: pairwise maximum when
+/// compatible (`expect_ok`), refusal otherwise.
+#[cfg(any(kani, corgi_verif))]
+pub fn shape_rule<S: Source>(s: &mut S, ra: usize, rb: usize, expect_ok: bool) {
+    let mut a = Vec::with_capacity(ra);
+    let mut b = Vec::with_capacity(rb);
+    for _ in 0..ra {
+        a.push(1 + s.size(65536));
+    }
+    for _ in 0..rb {
+        b.push(1 + s.size(65536));
+    }
+    let r = if ra > rb { ra } else { rb };
+    let mut ok = true;
+    let mut e = vec![0usize; r];
+    for k in 0..r {
+        let x = if k < ra { a[ra - 1 - k] } else { 1 };
+        let y = if k < rb { b[rb - 1 - k] } else { 1 };
+        ok &= x == y || x == 1 || y == 1;
+        e[r - 1 - k] = if x > y { x } else { y };
+    }
+    #[cfg(kani)]
+    kani::assume(ok == expect_ok);
+    #[cfg(not(kani))]
+    assert!(ok == expect_ok, "[replay] recorded values violate the assumption");
+    let d = corgi::array::verif_element_wise_dimensions(&a, &b);
+    if expect_ok {
+        chk!(dims_eq(&d, &e), "[C04:shape-rule] broadcast dimensions are not the pairwise maximum");
+        witness();
+    } else {
+        chk!(false, "[C04:refusal-missing] incompatible shapes were accepted");
+    }
+}
+#[cfg(not(any(kani, corgi_verif)))]
+pub fn shape_rule<S: Source>(_s: &mut S, _ra: usize, _rb: usize, _expect_ok: bool) {
+    panic!("[replay] built without --cfg corgi_verif");
+}
